@@ -92,21 +92,21 @@ class GotranPythonCodePrinter(PythonCodePrinter):
         return "".join(result)
 
     def _print_And(self, expr):
-        if len(expr.args) == 2:
-            value = f"numpy.logical_and({self._print(expr.args[0])}, {self._print(expr.args[1])})"
-        else:
-            args = ", ".join(self._print(arg) for arg in expr.args)
-            value = f"numpy.logical_and.reduce(({args}))"
+        # Nest binary calls: ``logical_and.reduce((a, b, c))`` first stacks the operands into
+        # one array, which fails for operands of different shapes and in jax.numpy
+        args = [self._print(arg) for arg in expr.args]
+        value = args[-1]
+        for arg in reversed(args[:-1]):
+            value = f"numpy.logical_and({arg}, {value})"
 
         return value
 
     def _print_Or(self, expr):
         # value = super()._print_Or(expr)
-        if len(expr.args) == 2:
-            value = f"numpy.logical_or({self._print(expr.args[0])}, {self._print(expr.args[1])})"
-        else:
-            args = ", ".join(self._print(arg) for arg in expr.args)
-            value = f"numpy.logical_or.reduce(({args}))"
+        args = [self._print(arg) for arg in expr.args]
+        value = args[-1]
+        for arg in reversed(args[:-1]):
+            value = f"numpy.logical_or({arg}, {value})"
 
         return value
 
